@@ -10,6 +10,26 @@ TB = ("Trusted: Lean 4.33 kernel; axioms ⊆ {propext, Classical.choice, Quot.so
       "against the compiled Lean driver) and by regenerated source facts — both trusted, not proved. ")
 
 CLAIMED = {
+ "C02": dict(
+   text="Theorems over the executable model of PublishHandler: a POST is accepted iff it carries a valid publisher token whose mercure.publish is defined and covers every topic ('*' or a matching selector, at any position) or the version-7 mode applies to a non-private update, and the body is well-formed; every refusal is a 4xx with a fixed text; canDispatch is position-independent. The model is run against Hub.ServeHTTP on both transports on generated requests; after every request a '*' watcher, the last event id and the Bolt history are checked for 'no effect'.",
+   note=TB + "Token verification is C03's; the selector relation is C11's (matchSpec). A hub built with no publisher key is outside the property's configurations (C19).",
+   technique="Lean 4 proof (decision logic, list induction) + differential correspondence through the HTTP handler",
+   design="§8 C02"),
+ "C03": dict(
+   text="Theorems: validate grants claims iff the token is well-formed, its header alg is exactly the configured one, the signature verifies under the role's key and exp/nbf hold; a presented token that does not validate is an error on publish, subscribe (anonymous on and off) and the subscription API — never a downgrade to anonymous. Tie: the harness mints tokens with its own JWS encoder for all ten accepted algorithms, applies ~50 structured mutations, recomputes the token facts with its own decoder/verifier and compares the hub's verdict on the three endpoints.",
+   note=TB + "PARTIAL: that golang-jwt/Go crypto compute the signature verdict soundly is in the trusted base; the theorems cover the decision logic around verification. Non-canonical base64 of the same signature bytes decodes to the same bytes and is treated as the same token.",
+   technique="Lean 4 proof (decision logic) + differential correspondence with an independent JWS implementation",
+   design="§8 C03"),
+ "C04": dict(
+   text="Theorems over authorize (shared by the three endpoints): header-only, query-over-cookie, no fall-through, anonymous iff no credential at all, cookie on POST honoured iff the effective origin (Origin, else origin of a parsable Referer) is a configured publish origin, safe methods skip the rule, anonymous never publishes / subscribes iff allowed / never lists. Tie: the abstract credential table is enumerated exhaustively (127k requests) through Hub.ServeHTTP with two tokens of different rights; model and implementation must agree on every row.",
+   note=TB + "net/http cookie, header and URL parsing are library behaviour (the harness builds requests with net/http).",
+   technique="Lean 4 proof (case analysis of the decision function) + exhaustive enumeration of the abstract table on the implementation",
+   design="§8 C04"),
+ "C05": dict(
+   text="Theorems: decode(encode ts p) = (sort ts, p) for every list of strings (U+0000/U+0001, empty, duplicates); MatchTopics is the order-insensitive subscribed∧(¬private∨authorised) predicate; for every history of add/remove/dispatch/evict on the index, with any cache size, a dispatch returns exactly the indexed values passing the test (inductive invariant over the exact skipfilter model). Tie: NewSubscriberList with sizes {1,2,8,default} on generated histories, recipients compared as sets, and against the naive predicate.",
+   note=TB + "skipfilter/skiplist/roaring/golang-lru enter through the exact executable model checked differentially; concurrent MatchAny is C14's business.",
+   technique="Lean 4 proof (round-trip by induction; refinement invariant over operation histories) + differential correspondence",
+   design="§8 C05"),
  "C11": dict(
    text="Theorem over an exact executable model of the sharded-LRU selector store: for every lookup history, capacity and shard count (0 = disabled) every answer equals the protocol's relation (cache transparency by a weak-cache invariant; thread-modular form for concurrent evaluation). The key expression and the hit validation are regenerated from topicselector.go on every run and the obligation is re-proved against them; the model is run against the real store on generated and collision-seeking histories.",
    note=TB + "RFC 6570 semantics (yosida95/uritemplate + Go regexp) enters as the TemplateOracle parameter: partial on that side.",
